@@ -153,6 +153,65 @@ def iExtIter : Nat → St → Bool × St
         let (_, s) := s.onMem (Mem.dropId a)
         (true, s)
 
+def iNew (cap : Nat) : Vec := { slots := uninits cap, len := 0 }
+
+/-- `pop_if` (inline.rs:448): `last_mut()?` (no user call on an empty vector), then the user
+predicate — a user call that may panic and otherwise answers `ans` — and only then `pop` -/
+def iPopIf (ans : Bool) (s : St) : Ret × St :=
+  if s.v.len = 0 then (.none, s)
+  else
+    let (p, s) := s.onMem Mem.tick
+    if p then (.panic, s) else if ans then iPop s else (.none, s)
+
+/-- `Extend::extend` (inline.rs:1272) with every user call: `IntoIterator::into_iter`, the loop
+(`Iterator::next`, `push`), and the drop of the iterator (at the end of the loop or by unwinding) -/
+def iExtend (k : Nat) (s : St) : Bool × St :=
+  let (p0, s) := s.onMem Mem.tick
+  if p0 then (true, s)
+  else
+    let (p, s) := iExtIter k s
+    let (q, s) := s.onMem Mem.tick
+    (p || q, s)
+
+/-- `for item in iter { this.push(item) }` on a local vector (`from_iter`, inline.rs:213) -/
+def pushLoopLocal : Nat → Vec → St → Bool × Vec × St
+  | 0, o, s =>
+    let (p, s) := s.onMem Mem.tick
+    (p, o, s)
+  | k + 1, o, s =>
+    match s.onMem Mem.genVal with
+    | (none, s) => (true, o, s)
+    | (some a, s) =>
+      if o.len < o.cap then pushLoopLocal k (o.store a) s
+      else
+        let (_, s) := s.onMem (Mem.dropId a)
+        (true, o, s)
+
+/-- `InlineVec::from_iter` (inline.rs:208) building a temporary: `into_iter()`, `size_hint()` (user
+calls), the assertion on the lower bound, the push loop; the iterator is dropped at the end of the
+loop or by unwinding; the new vector is returned (and then dropped by the caller) or dropped by
+the unwinding -/
+def iFromIter (hint k : Nat) (s : St) : Bool × St :=
+  let (p0, s) := s.onMem Mem.tick
+  if p0 then (true, s)
+  else
+    let (p1, s) := s.onMem Mem.tick
+    if p1 then
+      let (_, s) := s.onMem Mem.tick
+      (true, s)
+    else if hint ≤ s.v.cap then
+      let (p, o, s) := pushLoopLocal k (iNew s.v.cap) s
+      let (q, s) := s.onMem Mem.tick
+      -- `Drop for InlineVec`: by the caller (a `for` loop that a panicking destructor leaves), or
+      -- by the unwinding (no destructor panics then: every element is dropped)
+      let (r, s) :=
+        if p || q then (false, (s.onMem (Mem.dropSlice (o.range 0 o.len))).2)
+        else s.onMem (Mem.dropLoop (o.range 0 o.len))
+      (p || q || r, s)
+    else
+      let (_, s) := s.onMem Mem.tick
+      (true, s)
+
 /-- loop of `extend_from_slice` writing into a local vector `o` -/
 def cloneIntoLocal : List Slot → Vec → St → Bool × Vec × St
   | [], o, s => (false, o, s)
@@ -161,7 +220,6 @@ def cloneIntoLocal : List Slot → Vec → St → Bool × Vec × St
     | (none, s) => (true, o, s)
     | (some b, s) => cloneIntoLocal xs (o.store b) (s.chk (o.len < o.cap))
 
-def iNew (cap : Nat) : Vec := { slots := uninits cap, len := 0 }
 
 /-- `Clone::clone` = `from_slice_clone(self.as_slice())` (inline.rs:1201,900); the clone is a
 local: dropped by the unwinding if a clone panics, dropped by the caller otherwise -/
